@@ -167,8 +167,12 @@ class NextHop(Attribute):
 
     @classmethod
     def unpack_attribute(cls, data: Buffer, negotiated: Negotiated) -> Attribute:
+        # the NEXT_HOP attribute (code 3) is an IPv4 address: RFC 4271 5.1.3, RFC 7606 7.3
+        # (the 16-byte form only exists inside MP_REACH_NLRI, which uses from_packet)
         if not data:
             return NextHop.UNSET
+        if len(data) != 4:
+            raise ValueError(f'NEXT_HOP attribute must be 4 bytes, got {len(data)}')
         return cls.from_packet(data)
 
 
